@@ -4,6 +4,8 @@ import (
 	"bytes"
 	"errors"
 	"fmt"
+	"reflect"
+	"strings"
 
 	"github.com/miekg/dns"
 	"pgregory.net/rapid"
@@ -107,6 +109,49 @@ func checkLen(c lenCase) error {
 			return pbt.Errf("Len(rr)=%d under-estimates the %d packed octets of a %s record", l, off, typeName(r.Type))
 		} else if c.Plain && l != off {
 			return pbt.Errf("Len(rr)=%d but a plain %s record packs to %d octets", l, typeName(r.Type), off)
+		}
+	}
+	// Text fields in a spelling the packer may or may not accept (base64 without its padding, hex in
+	// upper case): if it packs, Len must still cover it
+	for _, r := range m.AllRecs() {
+		layout, ok := wm.LayoutOf(r.Type)
+		if !ok || r.NoRdata {
+			continue
+		}
+		rr, err := wm.ToLib(r)
+		if err != nil {
+			continue
+		}
+		v := reflect.ValueOf(rr).Elem()
+		changed := false
+		for _, sp := range layout {
+			if sp.R != wm.ReprB64 && sp.R != wm.ReprHex {
+				continue
+			}
+			f := v.FieldByName(sp.Go)
+			if !f.IsValid() || f.Kind() != reflect.String {
+				continue
+			}
+			if sp.R == wm.ReprB64 && strings.HasSuffix(f.String(), "=") {
+				f.SetString(strings.TrimRight(f.String(), "="))
+				changed = true
+			} else if sp.R == wm.ReprHex && f.String() != strings.ToUpper(f.String()) {
+				f.SetString(strings.ToUpper(f.String()))
+				changed = true
+			}
+		}
+		if !changed {
+			continue
+		}
+		buf := make([]byte, 70000)
+		off, err := dns.PackRR(rr, buf, 0, nil, false)
+		if err != nil {
+			pbt.Class("lenient-spelling-refused")
+			continue
+		}
+		pbt.Class("lenient-spelling-packed")
+		if l := dns.Len(rr); l < off {
+			return pbt.Errf("Len(rr)=%d under-estimates the %d packed octets of a %s record whose text field is written without padding / in upper case", l, off, typeName(r.Type))
 		}
 	}
 	// PackBuffer: a buffer larger than the uncompressed length is used in place
@@ -273,7 +318,36 @@ func genBoundary(t *rapid.T) lenCase {
 	return lenCase{M: m, Compress: rapid.IntRange(0, 3).Draw(t, "compress") != 0, Plain: plain}
 }
 
+// genSuffixDense: names made of very many one-octet labels - every label start is a possible
+// pointer target, so a few dozen such names put thousands of targets into the first 16 KiB (far
+// more than one per three octets) - followed by names that are used again.
+func genSuffixDense(t *rapid.T) lenCase {
+	m := wm.Msg{ID: uint16(gen.UintB(t, 16)), Flags: wm.FlagQR, Q: []wm.Question{{Name: wm.MustName("q.example."), Type: 1, Class: 1}}}
+	n := rapid.IntRange(30, 70).Draw(t, "ndense")
+	al := "abcdefghijklmnopqrstuvwxyz0123456789"
+	for i := 0; i < n; i++ {
+		var name wm.Name
+		// distinct names: the label sequence spells i in base 36 again and again
+		for j, labs := 0, rapid.IntRange(90, 126).Draw(t, "nlabs"); j < labs; j++ {
+			name = append(name, []byte{al[(i*7+j*(i+1)+j/36)%36]})
+		}
+		m.An = append(m.An, wm.Rec{Name: name, Type: wm.TA, Class: 1, TTL: 1, Fields: []wm.Field{{K: wm.IPv4, B: []byte{10, 0, 0, byte(i)}}}})
+	}
+	// ordinary names after that, each used several times
+	for i, k := 0, rapid.IntRange(2, 6).Draw(t, "nlate"); i < k; i++ {
+		late := gen.Name(t, gen.NameOpts{Plain: true, MaxLabs: 3, MaxLabel: 8})
+		if len(late) == 0 {
+			late = wm.MustName("late.example.")
+		}
+		for r := 0; r < 3; r++ {
+			m.Ns = append(m.Ns, wm.Rec{Name: late.Clone(), Type: wm.TNS, Class: 1, TTL: 1, Fields: []wm.Field{{K: wm.NameC, N: late.Clone()}}})
+		}
+	}
+	return lenCase{M: m, Compress: rapid.IntRange(0, 5).Draw(t, "compress") != 0, Plain: true}
+}
+
 func init() {
+	pbt.Register(pbt.Sub[lenCase]{Name: "len-suffix-dense", Weight: 0.05, Gen: genSuffixDense, Check: checkLen})
 	pbt.Register(pbt.Sub[lenCase]{Name: "len-at-16384", Weight: 6, Gen: genBoundary, Check: checkLen})
 	pbt.Register(pbt.Sub[lenCase]{Name: "len-any", Weight: 10, Gen: genAny, Check: checkLen})
 	pbt.Register(pbt.Sub[lenCase]{Name: "len-plain-exact", Weight: 10, Gen: genPlain, Check: checkLen})
